@@ -308,7 +308,10 @@ def c02(ctx, case, io):
                 body = st["body"]
                 if real_hash_ok(d, body):
                     mt = st["ctype"] or (detect_py(views[body]) if body in views else None)
-                    mans[(repo, d)] = (body, mt)
+                    # the same bytes may be acknowledged under several media types (header docker list, body OCI index ...):
+                    # each of them is "the pushed media type"
+                    prev = mans.get((repo, d))
+                    mans[(repo, d)] = (body, mt, (prev[2] if prev else set()) | {mt})
                     blobs[(repo, d)] = body
                     if body in views and kind_of_mt(mt or "") == "index":
                         for cd in views[body]["manifests"]:
@@ -345,13 +348,15 @@ def c02(ctx, case, io):
             else:
                 d = st["arg"] if (repo, st["arg"]) in mans else None
             if d is not None and (repo, d) in mans:
-                body, mt = mans[(repo, d)]
+                body, mt, mset = mans[(repo, d)]
                 # every Accept list containing the stored type must be served
-                if mt is None or mt in accept_list(st["accept"]):
+                if None in mset or all(m in accept_list(st["accept"]) for m in mset):
                     sig = None
                     if restarted and (repo, d) in was_child and d not in [v for (r_, t), v in tags.items() if r_ == repo]:
                         sig = "C02:child-manifest-lost-after-index-delete-and-restart"
-                    check_read(ctx, case, k, st, res, body, d, mt, "manifest", lost_sig=sig)
+                    check_read(ctx, case, k, st, res, body, d, mt if len(mset) == 1 else None, "manifest", lost_sig=sig)
+                    if len(mset) > 1 and None not in mset and res.get("status") in (200, 206) and hdr(res, "Content-Type") not in mset:
+                        ctx.violation("manifest %s pushed as %s is served as %r" % (d[:19], sorted(mset), hdr(res, "Content-Type")), hist(case, k, res), "C02:media-type")
 
 
 def check_read(ctx, case, k, st, res, want, d, mt, what, lost_sig=None):
